@@ -29,5 +29,6 @@ for p in "$@"; do
   out=$(bin/vharness run -prop $p -tier ${TIER:-quick} -verif "$S/verif" "${extra[@]}" 2>&1); rc=$?
   e=$(date +%s)
   case $rc in 0) v=MISSED;; 1) v=DETECTED;; *) v=INCONCLUSIVE;; esac
+  [ -n "${SHOW:-}" ] && echo "$out" | grep '^KNOWN\|^VIOLATION\|^NOTE\|^INCONCLUSIVE\|^  ' | cut -c1-300 | head -${SHOW}
   echo "$p: $v rc=$rc $((e-s))s | $(echo "$out" | grep -m1 'signature:' | cut -c1-160) | $(echo "$out" | grep "^$p " | sed 's/.*cases=/cases=/' | cut -c1-120)"
 done
